@@ -98,7 +98,18 @@ func NewRun(prop, tier string) *Run {
 }
 
 // SetDeadline sets an internal time cap; Expired() then reports it and marks the run non-exhaustive.
-func (r *Run) SetDeadline(d time.Duration) { r.deadline = r.start.Add(d) }
+func (r *Run) SetDeadline(d time.Duration) {
+	r.deadline = r.start.Add(d)
+	// worker processes are started in waves by their parent: the cap counts from the parent's start, so that the whole
+	// run - not every wave - stays within it
+	if s := os.Getenv("VERIF_PARENT_START"); s != "" {
+		if ns, err := strconv.ParseInt(s, 10, 64); err == nil {
+			if pd := time.Unix(0, ns).Add(d); pd.Before(r.deadline) {
+				r.deadline = pd
+			}
+		}
+	}
+}
 func (r *Run) DeadlineTime() time.Time { return r.deadline }
 func (r *Run) Expired() bool {
 	if r.deadline.IsZero() || time.Now().Before(r.deadline) {
